@@ -43,6 +43,29 @@ type Prog struct {
 	parents map[ast.Node]ast.Node
 	fileOf  map[*ast.File]*packages.Package
 	NFiles  int
+	overlay map[string][]byte
+}
+
+// ReadFile reads a file of the analysed tree (path relative to the repository
+// root), honouring the in-memory overlay of the mutant self-test.
+func (p *Prog) ReadFile(rel string) ([]byte, error) {
+	abs := filepath.Join(p.Dir, rel)
+	if b, ok := p.overlay[abs]; ok {
+		return b, nil
+	}
+	return os.ReadFile(abs)
+}
+
+// Glob lists files of the analysed tree matching the pattern (relative paths).
+func (p *Prog) Glob(pattern string) []string {
+	m, _ := filepath.Glob(filepath.Join(p.Dir, pattern))
+	var out []string
+	for _, f := range m {
+		r, _ := filepath.Rel(p.Dir, f)
+		out = append(out, r)
+	}
+	sort.Strings(out)
+	return out
 }
 
 // LoadOpts selects the build configuration and an optional overlay (used only
@@ -106,7 +129,7 @@ func Load(opts LoadOpts) (*Prog, error) {
 	if err != nil {
 		return nil, fmt.Errorf("go/packages: %w", err)
 	}
-	p := &Prog{Dir: opts.Dir, GOARCH: opts.GOARCH, Fset: fset,
+	p := &Prog{Dir: opts.Dir, GOARCH: opts.GOARCH, Fset: fset, overlay: opts.Overlay,
 		ByPath: map[string]*packages.Package{}, AllTypes: map[string]*types.Package{},
 		fns: map[*types.Func]*Fn{}, varFns: map[string]*Fn{}, parents: map[ast.Node]ast.Node{}, fileOf: map[*ast.File]*packages.Package{}}
 	var errs []string
